@@ -102,6 +102,44 @@ def shard(P, ver, idx, n, seed):
             P.sample({"ver": ver, "rep": rep, "spelling": s, "kind": kind})
 
 
+def shard_base_exhaustive(P, ver, part, nparts, shapes, seed):
+    """EVERY base assignment of v2 / v3 (v4: a sample) x optional metrics defined one at a
+    time x every single Not-Defined toggle and a reversed order: spelling independence is
+    also checked on corner vectors (caps, clamps) that random sampling rarely hits."""
+    import itertools
+    import random
+    rng = random.Random("C05-ex-%s-%s-%s" % (seed, ver, part))
+    nd = T.ND[ver]
+    if ver == "2":
+        bases = [dict(zip(T.MANDATORY["2"], c)) for c in itertools.product("LAN", "HML", "MSN", "NPC", "NPC", "NPC")]
+    elif ver == "3":
+        bases = list(V.v3_base_assignments())
+    else:
+        bases = [{k: rng.choice(T.VALUES["4"][k]) for k in T.MANDATORY["4"]} for _ in range(2000)]
+    opt = T.OPTIONAL[ver]
+    for bi, base in enumerate(bases):
+        if bi % nparts != part:
+            continue
+        if ver == "2":  # every (optional metric, defined value) alone, for every base vector
+            shapes_ = [(k, v) for k in opt for v in T.VALUES[ver][k] if v != nd]
+        else:
+            shapes_ = []
+            for sh in range(shapes):
+                k = opt[(bi + sh) % len(opt)]
+                shapes_.append((k, rng.choice([v for v in T.VALUES[ver][k] if v != nd])))
+        for k, v in shapes_:
+            m = dict(base)
+            m[k] = v
+            for prefix in T.PREFIXES[ver]:
+                rep = V.spell(prefix, m)
+                for i, d in enumerate(V.nd_variants(ver, m, rng, n_random=0)):
+                    s = V.spell(prefix, d, "official" if i % 2 else "reversed")
+                    if s != rep:
+                        P.stratum("exhaustive-base:v%s" % ver)
+                        check_pair(P, ver, rep, s, "nd:exhaustive-base")
+        P.distinct_n += 1
+
+
 def run(R):
     R.rule = RULE
     R.require("record-equal", "eq-hash")
@@ -109,6 +147,8 @@ def run(R):
     n = R.pick(60, 1900)
     for ver in T.VERSIONS:
         R.pmap("shard", [(ver, i, n, R.seed) for i in range(16)])
+    for ver in T.VERSIONS:
+        R.pmap("shard_base_exhaustive", [(ver, i, 16, R.pick(1, 6), R.seed) for i in range(16)])
     for ver in T.VERSIONS:
         got = R.P.extra.get("nd_toggled_alone_v" + ver, set())
         miss = set(T.OPTIONAL[ver]) - got
